@@ -106,11 +106,14 @@ TargetsOf(rt) ==
     ELSE {"reg", "wrongm", "pre", "opt"} \cup (IF rt.kind \in {"plain", "name", "id"} THEN {"tsr"} ELSE {})
 
 \* the path a playback request names: a path with recordings that some users may play, another
-\* path with recordings, something that is no path name, no parameter at all
-PPaths == {"cam1", "other", "inv", "none"}
+\* path with recordings, something that is no path name, no parameter at all, and
+\* cam1bad: the path cam1 together with another parameter that is not acceptable (start / duration / format);
+\* unconf: a valid path name that no path configuration matches
+PPaths == {"cam1", "other", "cam1bad", "unconf", "inv", "none"}
 PPathsOf(rt, tg) == IF rt.svc = "playback" /\ rt.kind # "unk" /\ tg = "reg" THEN PPaths
                     ELSE IF rt.svc = "playback" THEN {"cam1"} ELSE {""}
-ValidPath(pp) == pp \in {"cam1", "other"}
+ValidPath(pp) == pp \in {"cam1", "other", "cam1bad", "unconf"}
+PathOf(pp) == CASE pp = "cam1bad" -> "cam1" [] pp = "unconf" -> "nocam" [] OTHER -> pp
 
 ActionOf(svc) == svc          \* "api", "metrics", "pprof", "playback": listener = action
 
@@ -182,7 +185,7 @@ IPok(u, ip) == \E i \in 1..Len(u.ips) : ip \in NetHas(u.ips[i])
 Admit1(us, r) == \E i \in 1..Len(us) :
     AI!EntryF(us[i].ips = <<>>, IPok(us[i], r.ip), AI!GrantsLo(us[i], r), AI!IsAny(us[i].user), AI!CredMatch(us[i], r))
 \* the request path of a playback request; other actions have none
-APath(c) == IF c.svc = "playback" /\ ValidPath(c.pp) THEN c.pp ELSE ""
+APath(c) == IF c.svc = "playback" /\ ValidPath(c.pp) THEN PathOf(c.pp) ELSE ""
 AdmitHi(c) == \E up \in Readings(c.cred) :
     Admit1(InstUsers(c.inst), AReq(ActionOf(c.svc), APath(c), EffIP(InstTrusted(c.inst), c.xff), up))
 AdmitLo(c) == \A up \in Readings(c.cred) :
@@ -300,6 +303,7 @@ EmitSettings ==
                                       pprof |-> TCode(tab[<<"pprof", "">>]),
                                       cam1 |-> TCode(tab[<<"playback", "cam1">>]),
                                       other |-> TCode(tab[<<"playback", "other">>]),
+                                      unconf |-> TCode(tab[<<"playback", "unconf">>]),
                                       nopath |-> TCode(tab[<<"playback", "inv">>])]])
 
 ASSUME Emit("ROUTES", [routes |-> RouteSeq,
